@@ -2,3 +2,4 @@ import Drivers.Common
 import Drivers.OracleD
 import Drivers.GovD
 import Drivers.ChainDriver
+import Drivers.BankVmD
